@@ -930,7 +930,7 @@ func rdpScanRule(p *core.Program, r *core.Report, rule string) {
 	var viaHelper *ssa.Call
 	findCall := func(f *ssa.Function) *ssa.Call {
 		for _, c := range eng.Calls(f) {
-			if g := c.Common().StaticCallee(); g != nil && g.Name() == "distanceFromSegmentSquared" {
+			if g := c.Common().StaticCallee(); g != nil && g == rdpDistanceFn(p) {
 				cc, _ := c.(*ssa.Call)
 				return cc
 			}
@@ -1556,7 +1556,7 @@ func rdpSingleDecisionRule(p *core.Program, r *core.Report, rule string) {
 	r.Rule(rule, "SimplifyFlatCoords contains no floating-point comparison and no distance computation of its own: the result is read off the mask that dpWorker filled, dpWorker is the only caller of distanceFromSegmentSquared, and dpWorker does compare a float (positive control of the matcher) - so no fast path can keep or drop vertices by a different criterion than the recursive farthest-point test", 3)
 	sf := mustFn(p, r, rule, "xy", "SimplifyFlatCoords")
 	dw := mustFn(p, r, rule, "xy", "dpWorker")
-	ds := mustFn(p, r, rule, "xy", "distanceFromSegmentSquared")
+	ds := mustFn(p, r, rule, "xy", rdpDistanceName(p))
 	if sf == nil || dw == nil || ds == nil {
 		return
 	}
